@@ -33,8 +33,11 @@ ITERS = [1, 2, 5, 50]
 QTOLS = [0.0, 1e-5, 1e-1]
 
 
+EXTREME = {"f32": [3e19, 1e-25], "f64": [1e160, 1e-160]}
+
+
 def bounds(tier):
-    return {"n": [1, 2, 3, 4, 8, 16] + ([64] if tier == "thorough" else [])}
+    return {"n": [1, 2, 3, 4, 8, 16] + ([64] if tier == "thorough" else []), "extreme_scales": EXTREME}
 
 
 def cases(tier):
@@ -44,6 +47,10 @@ def cases(tier):
             bases = mx.BASES if 1 < n < 16 else (["givens", "identity", "dct"] if n >= 16 else ["identity"])
             for sp, b in itertools.product(SPECTRA, bases):
                 yield dict(n=n, dtype=dtype, sp=sp, basis=b)
+            # extreme but finite magnitudes (squares of the entries over/underflow the dtype): eigenvectors are scale invariant
+            if 2 <= n <= 4:
+                for sp, b, scale in itertools.product(SPECTRA[:2], ["dct", "perm"], EXTREME[dtype]):
+                    yield dict(n=n, dtype=dtype, sp=sp, basis=b, scale=scale)
 
 
 def work(tier, seed):
@@ -86,7 +93,7 @@ def check_input(torch, c, stats):
     u = common.UNIT[dtype]
     dt = common.dtype_of(dtype)
     Qc = mx.basis(c["basis"], n)
-    lam = mx.spectrum(c["sp"], n)
+    lam = mx.spectrum(c["sp"], n) * c.get("scale", 1.0)
     A64 = mx.assemble(Qc, lam)
     A = torch.tensor(A64, dtype=dt)
     A = (A + A.T) / 2
@@ -166,7 +173,12 @@ def check_input(torch, c, stats):
             continue
         if est == "zero":
             if not torch.equal(Qt, Qeigh):
-                out.append((case, "QR with a zero estimate does not fall back to the eigendecomposition result"))
+                # not bit-identical to the eigh-configured call: still acceptable if it is an eigendecomposition result
+                # (orthonormal, diagonalising, ascending) - the property does not fix the code path
+                D0 = Q.T @ An @ Q
+                if not (orth(Q) <= tol_o and np.max(np.abs(D0 - np.diag(np.diag(D0)))) / nA <= tol_o and np.all(np.diff(np.diag(D0)) >= -tol_o * nA)):
+                    out.append((case, "QR with a zero estimate does not fall back to the eigendecomposition result"))
+                stats["zero_estimate_not_bit_identical"] = stats.get("zero_estimate_not_bit_identical", 0) + 1
             continue
         stats["qr_nonzero"] = stats.get("qr_nonzero", 0) + 1
         if not np.all(np.isfinite(Q)):
@@ -258,7 +270,7 @@ def run_unit(unit):
 def replay(case):
     import torch
 
-    c = {k: case[k] for k in ("n", "dtype", "sp", "basis")}
+    c = {k: case[k] for k in ("n", "dtype", "sp", "basis", "scale") if k in case}
     bad = check_input(torch, c, {})
     keys = [k for k in ("method", "est", "iters", "qtol") if k in case]
     return [m for cs, m in bad if all(cs.get(k) == case.get(k) for k in keys)]
